@@ -28,6 +28,7 @@ type Drv struct {
 	Falses     int  // consumers that observed ok=false
 	AfterFalse bool // an Acquire after ok=false returned ok=true
 	Cancelled  bool
+	exited     int
 	StepsAfterCancel int // Acquire calls that returned ok=true after the cancel
 	Log        *zap.Logger
 }
@@ -53,6 +54,11 @@ func (d *Drv) Start(ctx context.Context, cancel func()) {
 			defer func() {
 				if r := recover(); r != nil {
 					d.ConsPanic = fmt.Sprint(r)
+				}
+				// like the engine: once every instance has finished, the pool cancels its provider
+				d.exited++
+				if d.exited == d.Consumers {
+					cancel()
 				}
 			}()
 			for {
